@@ -44,9 +44,8 @@ TRACE_SPEC = fc.TRACE_SPEC
 WHAT = "real RawMemoryFreeList growth deviates from the specification"
 
 
-def run(ctx):
+def model_check(ctx):
     quick = ctx.tier == "quick"
-    exe = ctx.build("d_freelist")
     sfx = "" if quick else "_big"
     # ---- design level: page/block arithmetic -----------------------------------------------------
     fc.mc(ctx, "MC_RmflGrow%s.cfg" % sfx, module="RmflGrow.tla", require=["Grow"], timeout=2400)
@@ -58,6 +57,11 @@ def run(ctx):
     # ---- design level: grown units are usable ----------------------------------------------------
     fc.mc(ctx, "MC_FreeList_rm%s.cfg" % sfx, require=["Alloc", "Free", "Grow"], timeout=2400)
     fc.mc(ctx, "MC_FreeList_mutant_growremainder.cfg", mutant=True)
+
+
+def drive_and_validate(ctx):
+    quick = ctx.tier == "quick"
+    exe = ctx.build("d_freelist")
     # ---- the real code ---------------------------------------------------------------------------
     files = []
     runs = [("dbg", exe, 12, 8)] if quick else [
@@ -67,8 +71,10 @@ def run(ctx):
     for tag, binary, maxpages, sample in runs:
         out = os.path.join(ctx.work, "grow_%s.ndjson" % tag)
         rc, o = ctx.run([binary, "grow", "--out", out, "--maxpages", str(maxpages), "--sample",
-                         str(sample)], timeout=2400)
-        if rc != 0:
+                         str(sample), "--hang", "30"], timeout=600 if quick else 2400)
+        if rc == 3:
+            ctx.sample("grow %s: a call of the code under test hung (Hang row recorded)" % tag)
+        elif rc != 0:
             ctx.violation("driver:grow:exit-%s" % rc, "d_freelist grow died (a fault in the code "
                           "under test that is not a panic): %s" % o[-600:])
             continue
@@ -103,3 +109,8 @@ def run(ctx):
                            "Map64::create_parent_freelist")
     ctx.assumptions.append("histories that end at a recorded finding (panic) do not exercise the "
                            "remaining growth of that tuple")
+
+
+def run(ctx):
+    model_check(ctx)
+    drive_and_validate(ctx)
